@@ -416,14 +416,16 @@ func windingOrderIsCorrect(ring [][2]float64, shouldBeClockwise bool) bool {
 	return wo.IsClockwise() && shouldBeClockwise || wo.IsCounterClockwise() && !shouldBeClockwise || wo.IsColinear()
 }
 
-// TODO: rewrite by using intgeoms for as long as possible
-func isHitMultiple(hitMultiple map[intgeom.Point][]int, vertex [2]float64, ringIdx int) bool {
-	intVertex := intgeom.FromGeomPoint(vertex)
-	return slices.Contains(hitMultiple[intVertex], ringIdx) || // exact match
-		slices.Contains(hitMultiple[intgeom.Point{intVertex[xAx] + 1, intVertex[yAx]}], ringIdx) || // fuzzy search
-		slices.Contains(hitMultiple[intgeom.Point{intVertex[xAx] - 1, intVertex[yAx]}], ringIdx) ||
-		slices.Contains(hitMultiple[intgeom.Point{intVertex[xAx], intVertex[yAx] + 1}], ringIdx) ||
-		slices.Contains(hitMultiple[intgeom.Point{intVertex[xAx], intVertex[yAx] - 1}], ringIdx)
+// hitMultipleVertices returns the points that a ring hit more than once, as they appear in that ring.
+// (Converting a vertex back to an intgeom.Point for a lookup is not exact for large coordinates.)
+func hitMultipleVertices(hitMultiple map[intgeom.Point][]int, ringIdx int) map[[2]float64]bool {
+	vertices := make(map[[2]float64]bool, len(hitMultiple))
+	for intPoint, ringIdxs := range hitMultiple {
+		if slices.Contains(ringIdxs, ringIdx) {
+			vertices[intPoint.ToGeomPoint()] = true
+		}
+	}
+	return vertices
 }
 
 // split ring into multiple rings at any point where the ring goes through the point more than once
@@ -435,8 +437,9 @@ func splitRing(ring [][2]float64, isOuter bool, hitMultiple map[intgeom.Point][]
 	stack.Set(partialRingIdx, [][2]float64{})
 	completeRings := make(map[int][][2]float64)
 	checkRing := append(ring, ring[0])
+	isHitMultiple := hitMultipleVertices(hitMultiple, ringIdx)
 	for vertexIdx, vertex := range checkRing {
-		if vertexIdx == 0 || !isHitMultiple(hitMultiple, vertex, ringIdx) {
+		if vertexIdx == 0 || !isHitMultiple[vertex] {
 			if partialRing, inited := stack.Get(partialRingIdx); !inited {
 				stack.Set(partialRingIdx, make([][2]float64, 0, len(checkRing)))
 			} else {
